@@ -318,21 +318,19 @@ def eval_tree(tree, val: dict) -> Optional[Fraction]:
 
 # --------------------------------------------------------------------- error-bounded normal form
 
-def from_tree_with_error(tree, radius: Fraction, unit: Fraction = Fraction(0)) -> Tuple[Poly, Poly, Poly, Poly]:
+def from_tree_with_error(tree, radius: Fraction) -> Tuple[Poly, Poly, Poly, Poly]:
     """(N, D, EN, ED): the normal form N/D of the tree and coefficient-wise bounds EN, ED such that
     for every tree of the same shape whose numerals differ from this tree's by at most `radius`
     each, with normal form N*/D* computed the same way, |N - N*| <= EN and |D - D*| <= ED
-    coefficient-wise.  (Interval arithmetic on coefficients; second-order terms included.)
-    `unit`: every fluent occurrence is read as 1*fluent with that numeral 1 uncertain by `unit`
-    (a printer may leave out a factor that rounds to 1)."""
-    radius, unit = Fraction(radius), Fraction(unit)
+    coefficient-wise.  (Interval arithmetic on coefficients; second-order terms included.)"""
+    radius = Fraction(radius)
     if isinstance(tree, str):
         return p_const(Fraction(tree)), p_const(1), (p_const(radius) if radius else {}), {}
     head = tree[0]
     if head not in OPS:
-        return p_var(tuple(tree)), p_const(1), ({((tuple(tree), 1),): unit} if unit else {}), {}
-    n1, d1, en1, ed1 = from_tree_with_error(tree[1], radius, unit)
-    n2, d2, en2, ed2 = from_tree_with_error(tree[2], radius, unit)
+        return p_var(tuple(tree)), p_const(1), {}, {}
+    n1, d1, en1, ed1 = from_tree_with_error(tree[1], radius)
+    n2, d2, en2, ed2 = from_tree_with_error(tree[2], radius)
 
     def mul(a, ea, b, eb):
         # |ab - a*b*| <= |a| eb + ea |b| + ea eb   (with |a*| <= |a| + ea)
@@ -394,6 +392,19 @@ def feasible_scale(a: Poly, b: Poly, e1: Poly, e2: Poly, positive: bool = True, 
     if hi is not None and (hi <= 0 or lo > hi):
         return None
     return lo, hi
+
+
+def with_unit_factors(tree):
+    """The tree with every additive term that contains no numeral multiplied by the numeral 1
+    (a printer may leave out a factor that rounds to 1; the error analysis must see that numeral).
+    Additive terms are the maximal subtrees reached from the root through + and - only."""
+    if isinstance(tree, str):
+        return tree
+    if tree[0] in ("+", "-"):
+        return [tree[0], with_unit_factors(tree[1]), with_unit_factors(tree[2])]
+    if numerals(tree):
+        return tree
+    return ["*", tree, "1"]
 
 
 def fmt_poly(a: Poly) -> str:
